@@ -51,3 +51,32 @@ func headersAllowed(c CrossOriginResourceSharing, acrhs string) bool {
 		return headerAllowed(c, model_strings_Trim(model_splitPart(acrhs, ",", k), " "))
 	})
 }
+
+// originDecision: the decision procedure of the filter (exact list match
+// first, predicate as a fallback); it implies originAllowed.
+func originDecision(c CrossOriginResourceSharing, o string) bool {
+	if len(o) == 0 {
+		return false
+	}
+	if len(c.AllowedDomains) == 0 {
+		if c.AllowedDomainFunc != nil {
+			return c.AllowedDomainFunc(strings.ToLower(o))
+		}
+		return true
+	}
+	if exists(0, len(c.AllowedDomains), func(k int) bool {
+		return c.AllowedDomains[k] == ".*" || strings.ToLower(c.AllowedDomains[k]) == strings.ToLower(o)
+	}) {
+		return true
+	}
+	if c.AllowedDomainFunc != nil {
+		return c.AllowedDomainFunc(o)
+	}
+	return false
+}
+
+// corsContainerOK: the container whose routes answer "which methods are routable here".
+func corsContainerOK(cc *Container) bool {
+	return cc != nil && servicesLock(cc) >= 0 &&
+		forall(0, len(cc.webServices), func(i int) bool { return matchersOK(cc.webServices[i]) })
+}
